@@ -273,6 +273,24 @@ def no_symbol_cache(chk, F):
             for f in r["fields"]:
                 if "symbol_t" in f["ct"]:
                     sym_fields.add(f["name"])
+    # fields of a nested record type that itself holds a symbol (a `struct { frame; name; symbol; } last_lookup`)
+    def holds_symbol(ct, depth=0):
+        if "symbol_t" in ct and "frame_t" not in ct.split("<")[0]:
+            return True
+        if depth > 2:
+            return False
+        for q, r in F.records.items():
+            if q and (ct == q or ct.endswith("::" + q.split("::")[-1]) or ct == q.split("::")[-1]) and \
+                    q not in ("UTAP::frame_t", "UTAP::symbol_t", "UTAP::Document", "UTAP::type_t", "UTAP::expression_t"):
+                return any(holds_symbol(f.get("ct") or "", depth + 1) for f in r.get("fields", []))
+        return False
+    for cls in ("UTAP::ExpressionBuilder", "UTAP::StatementBuilder", "UTAP::DocumentBuilder", "UTAP::AbstractBuilder"):
+        r = F.records.get(cls)
+        if r:
+            for f in r["fields"]:
+                ct = (f.get("ct") or "").replace("const ", "").replace("mutable ", "").strip()
+                if f["name"] not in sym_fields and "stack<" not in ct and "Document" not in ct and holds_symbol(ct):
+                    sym_fields.add(f["name"])
     for start in ("expr_identifier", "type_name", "is_type"):
         seen, todo, reads = set(), [F.resolve_method("UTAP::DocumentBuilder", start)], []
         while todo:
